@@ -10,13 +10,16 @@
 (* repetition limit are chosen in Init from the constant sets.             *)
 (*                                                                         *)
 (* StepBack = TRUE is the code; FALSE (the two lines after the while loop  *)
-(* dropped) is the negative control.                                       *)
+(* dropped) is the negative control.  HalveFirst = FALSE is the code; with *)
+(* RepLims = {0} TLC refutes BelowUpToResult for it (finding F25), with    *)
+(* HalveFirst = TRUE (the proposed repair) the theorem holds there too.    *)
 (***************************************************************************)
 EXTENDS Integers, Sequences, FiniteSets, TLC, LineSearchOps
 
 CONSTANTS Ks,        \* set of refinement counts K
           RepLims,   \* set of repetition limits
-          StepBack   \* BOOLEAN
+          StepBack,  \* BOOLEAN
+          HalveFirst \* BOOLEAN: FALSE is the code; TRUE = `eta = eta / 2` moved above the break (repair of F25)
 
 VARIABLES K, replim, pc, i, rep, pos, eta, passed, failed, probes, off, broke
 vars == <<K, replim, pc, i, rep, pos, eta, passed, failed, probes, off, broke>>
@@ -49,7 +52,7 @@ Body == /\ pc = "body"
 Back == /\ pc = "back"
         /\ pos' = IF StepBack THEN pos - eta ELSE pos
         /\ IF rep > replim
-           THEN pc' = "fallback" /\ broke' = TRUE /\ UNCHANGED <<eta, i>>
+           THEN pc' = "fallback" /\ broke' = TRUE /\ eta' = (IF HalveFirst THEN eta \div 2 ELSE eta) /\ UNCHANGED i
            ELSE pc' = "for" /\ eta' = eta \div 2 /\ i' = i + 1 /\ UNCHANGED broke
         /\ UNCHANGED <<K, replim, rep, passed, failed, probes, off>>
 
@@ -85,7 +88,7 @@ Tight == (Done /\ StartBelow /\ ~broke /\ K >= 1 /\ pos > 0) => (off + 2) \in fa
 \* the recursive operators used by the trace spec are this state machine
 AgreesWithOps ==
   Done => LET b == [p \in passed \cup failed |-> p \in passed]
-              r == LSRun(b, K, replim, StepBack)
+              r == LSRun(b, K, replim, StepBack, HalveFirst)
           IN r.off = off /\ r.probes = probes /\ r.broke = broke
 
 \* the number of probes is bounded by K * (rep_lim + 2)
